@@ -1,7 +1,7 @@
-// Run from the worktree root:
+// Copy this directory to <tree>/c19demo/<name>/ and run from the tree root:
 //
 //	export PATH=/opt/veriftools/go1.26.8/bin:$PATH GOTOOLCHAIN=local GOFLAGS=-mod=mod GOPROXY=off GOSUMDB=off
-//	go test ./AUDIT/demo/cu_reports_fixed_capacity/ -run TestCUWithSmallerWavefrontPools -v
+//	go test ./c19demo/cu_reports_fixed_capacity/ -run TestCUWithSmallerWavefrontPools -v
 //
 // Property C09: "every work-group is mapped to a compute unit ... only when
 // that unit has free wavefront slots ...; the resources of simultaneously
